@@ -260,11 +260,21 @@ type SexpArray struct {
 	Infix               bool
 
 	Env *Zlisp
+
+	// typing is set while Type() works out the element type, so that an
+	// array reached again through its own first element ends the descent.
+	typing bool
 }
 
 func (r *SexpArray) Type() *RegisteredType {
 	if r.Typ == nil {
 		if len(r.Val) > 0 {
+			if r.typing {
+				// [a ...] where a is this very array: no element type
+				return nil
+			}
+			r.typing = true
+			defer func() { r.typing = false }()
 			// take type from first element
 			ty := r.Val[0].Type()
 			if ty != nil {
